@@ -197,6 +197,12 @@ def compare(impl, model, loose=False):
             continue
         if pi != "ok":
             continue
+        # where the drag polynomial has diverged (semi-major axis beyond a factor four of its epoch value: the statement
+        # claims nothing beyond a factor two) the state is astronomically large or small and ill-conditioned: only the
+        # outcome class is compared there
+        aodp = model["params"].get("aodp")
+        if aodp and sm.get("a") is not None and not (0.25 <= sm["a"] / aodp <= 4.0):
+            continue
         # huge secular angles (diverged drag polynomial far from epoch) amplify ulp differences of sin/cos arguments
         big = max(abs(sm.get("xlt", 0.0)), abs(sm.get("xnode", 0.0)), abs(sm.get("xmp", 0.0)), 1.0)
         rel_s = rel * max(1.0, big / 1.0e3)
